@@ -86,7 +86,20 @@ def check(ctx, x, xvals, kname, k, case, is_array, elementwise_k=None):
             # promotion rule, not barril's: accept either precision; floor forms sit on rounding edges
             if "//" in label:
                 continue
-            ok = len(got_vals) == len(want_vals) and all(same(g, w) or abs(float(g) - float(w)) <= 1e-6 * max(abs(float(g)), abs(float(w))) for g, w in zip(got_vals, want_vals))
+            # "either precision" means: within single precision of the *operands* (a + or - may cancel, and a
+            # value below float32's normal range is subnormal there): 2^-22 x (|k| + |stored value| + |result|),
+            # or equal to the double-precision result of float(k)
+            k64 = float(k)
+            ok = len(got_vals) == len(want_vals)
+            for g, w, v in zip(got_vals, want_vals, xvals):
+                g, w = float(g), float(w)
+                try:
+                    w64 = float(vop(float(v), k64))
+                except ZeroDivisionError:
+                    w64 = w
+                slack = 2.0**-22 * (abs(k64) + abs(float(v)) + abs(w64))
+                if not (same(g, w) or same(g, w64) or abs(g - w) <= slack or abs(g - w64) <= 2.0**-22 * abs(w64)):
+                    ok = False
         else:
             ok = len(got_vals) == len(want_vals) and all(same(g, w) for g, w in zip(got_vals, want_vals))
         if not ok:
